@@ -206,8 +206,8 @@ pub fn run_history(init: &Init, h: &[Op], check_c09: bool) -> Result<Outcome, (S
                 model = buffer.to_vec();
             }),
             Op::FlushEntry | Op::Entry => {
-                if emitted >= init.nslots as usize {
-                    return Err(("harness".into(), "history emits more entries than slots".into()));
+                if emitted > init.nslots as usize {
+                    return Err(("harness".into(), "history emits more than one entry beyond the slots".into()));
                 }
                 // a bare entry (no flush) may only name bytes that were flushed already; flush+entry
                 // names everything grown since the previous entry
@@ -344,9 +344,12 @@ pub fn inits() -> Vec<Init> {
     v
 }
 
-pub fn histories(depth: usize, nslots: u8, must_start_with_flush: bool) -> Vec<Vec<Op>> {
+/// `surplus`: how many entries beyond the directory's slots a history may emit (the writer does not check;
+/// C09 only asks that image and destination stay equal then).
+pub fn histories(depth: usize, nslots: u8, must_start_with_flush: bool, surplus: u8) -> Vec<Vec<Op>> {
     let mut out = Vec::new();
-    fn rec(cur: &mut Vec<Op>, entries: u8, depth: usize, nslots: u8, out: &mut Vec<Vec<Op>>) {
+    fn rec(cur: &mut Vec<Op>, entries: u8, depth: usize, nslots: u8, real_slots: u8, out: &mut Vec<Vec<Op>>) {
+        // (nslots already includes the permitted surplus here)
         if !cur.is_empty() {
             out.push(cur.clone());
         }
@@ -358,17 +361,24 @@ pub fn histories(depth: usize, nslots: u8, must_start_with_flush: bool) -> Vec<V
             if entries + e > nslots {
                 continue;
             }
+            // a surplus entry only together with a flush (after it the whole image is the reference; what a
+            // bare surplus entry does to bytes that were flushed before is outside what the statement fixes)
+            if matches!(op, Op::Entry) && entries + e > real_slots {
+                continue;
+            }
             cur.push(op);
-            rec(cur, entries + e, depth, nslots, out);
+            rec(cur, entries + e, depth, nslots, real_slots, out);
             cur.pop();
         }
     }
+    let real_slots = nslots;
+    let nslots = nslots + surplus;
     let mut cur = Vec::new();
     if must_start_with_flush {
         cur.push(Op::Flush);
-        rec(&mut cur, 0, depth, nslots, &mut out);
+        rec(&mut cur, 0, depth, nslots, real_slots, &mut out);
     } else {
-        rec(&mut cur, 0, depth, nslots, &mut out);
+        rec(&mut cur, 0, depth, nslots, real_slots, &mut out);
     }
     out
 }
@@ -398,7 +408,7 @@ fn explore_c09(depth: usize, fault_depth: usize) -> Acc {
     let all_inits = inits();
     let nthreads = 16;
     let mut accs = Vec::new();
-    let hist_by_slots: Vec<Vec<Vec<Op>>> = (0..4u8).map(|n| histories(depth, n, false)).collect();
+    let hist_by_slots: Vec<Vec<Vec<Op>>> = (0..4u8).map(|n| histories(depth, n, false, 1)).collect();
     std::thread::scope(|s| {
         let all_inits = &all_inits;
         let hist_by_slots = &hist_by_slots;
@@ -546,7 +556,7 @@ pub fn run_c10_component(ctx: &Ctx, rep: &mut Report) {
     let mut short_runs = 0u64;
     let mut fails: Vec<(String, String, Value)> = Vec::new();
     for init in &all_inits {
-        for h in histories(depth, init.nslots, true) {
+        for h in histories(depth, init.nslots, true, 0) {
             hist_count += 1;
             match guarded(|| run_history(init, &h, false)) {
                 Err(p) => fails.push(("panic".into(), p, case_json(init, &h))),
